@@ -84,6 +84,70 @@ proof fn axiom_string_keys()
 //@end
 
 // ---------------------------------------------------------------------------------------------------------------------
+// C17: the decision is ACTED on only when there is one and it differs from the canister's flag (api_access.rs:64)
+// ---------------------------------------------------------------------------------------------------------------------
+//@extract file=watchdog/src/health.rs item="enum HeightStatus" props=C17
+//@ rewrite R2? "#\[derive\(([^\]]*)\)\]" => "#[derive(PartialEq, Eq, Structural)]"
+//@ rewrite R2? "#\[serde\([^\]]*\)\]" => ""
+//@end
+//@extract file=watchdog/src/health.rs item="struct HealthStatus" props=C17
+//@ rewrite R2? "#\[derive\(([^\]]*)\)\]" => ""
+//@end
+// [trusted:stand-in] ic_btc_interface::Flag
+#[derive(PartialEq, Eq, Clone, Copy, Structural)]
+enum Flag { Enabled, Disabled }
+//@extract file=watchdog/src/api_access.rs item="fn calculate_target" props=C17
+//@ ret r
+//@ spec
+//@| ensures r == (match health.height_status {
+//@|     HeightStatus::Ok => Some(Flag::Enabled),
+//@|     HeightStatus::Behind => Some(Flag::Disabled),
+//@|     HeightStatus::Ahead => Some(Flag::Disabled),
+//@|     HeightStatus::NotEnoughData => None::<Flag>,
+//@| }),
+//@end
+// [trusted:stand-in] the surroundings of synchronise_api_access: the health status of this round (decided by the C17 Kani harnesses),
+// the flag read from the monitored canister (an inter-canister call: any value or failure) and the set_config call, recorded in a
+// ghost outbox. R7: `async fn` => `fn`, `.await` dropped, the outbox is passed explicitly
+struct ApiOutbox { sent: Ghost<Seq<Option<Flag>>>, stored_target: Ghost<Option<Option<Flag>>> }
+uninterp spec fn health_now_spec() -> HealthStatus;
+uninterp spec fn actual_flag_spec() -> Option<Flag>;
+#[verifier::external_body]
+fn vp_health_status() -> (r: HealthStatus) ensures r == health_now_spec() { unimplemented!() }
+#[verifier::external_body]
+fn vp_set_api_access_target(o: &mut ApiOutbox, flag: Option<Flag>)
+    ensures final(o).stored_target@ == Some(flag), final(o).sent@ == old(o).sent@,
+{ unimplemented!() }
+#[verifier::external_body]
+fn vp_fetch_actual_api_access() -> (r: Option<Flag>) ensures r == actual_flag_spec() { unimplemented!() }
+#[verifier::external_body]
+fn vp_update_api_access(o: &mut ApiOutbox, target: Option<Flag>)
+    ensures final(o).sent@ == old(o).sent@.push(target), final(o).stored_target@ == old(o).stored_target@,
+{ unimplemented!() }
+//@extract file=watchdog/src/api_access.rs item="fn synchronise_api_access" props=C17
+//@ sigrewrite R7 "async fn synchronise_api_access\(\)" => "fn synchronise_api_access(vp_out: &mut ApiOutbox)"
+//@ rewrite R7 "crate::health::health_status\(\)" => "vp_health_status()"
+//@ rewrite R7 "crate::storage::set_api_access_target\(target\);" => "vp_set_api_access_target(vp_out, target);"
+//@ rewrite R7 "fetch_actual_api_access\(\)\.await" => "vp_fetch_actual_api_access()"
+//@ rewrite R7 "update_api_access\(target\)\.await;" => "vp_update_api_access(vp_out, target);"
+//@ spec
+//@| requires old(vp_out).sent@.len() == 0,
+//@| ensures
+//@|     ({
+//@|         let target = match health_now_spec().height_status {
+//@|             HeightStatus::Ok => Some(Flag::Enabled),
+//@|             HeightStatus::Behind => Some(Flag::Disabled),
+//@|             HeightStatus::Ahead => Some(Flag::Disabled),
+//@|             HeightStatus::NotEnoughData => None::<Flag>,
+//@|         };
+//@|         // the decision of this round is stored ...
+//@|         &&& final(vp_out).stored_target@ == Some(target)
+//@|         // ... and the canister's flag is changed exactly when there is a decision and it differs from the flag read back
+//@|         &&& final(vp_out).sent@ =~= (if target is Some && target != actual_flag_spec() { seq![target] } else { Seq::<Option<Flag>>::empty() })
+//@|     }),
+//@end
+
+// ---------------------------------------------------------------------------------------------------------------------
 // C18: the common transform wrapper (endpoints.rs:244)
 // ---------------------------------------------------------------------------------------------------------------------
 // [trusted:stand-in] candid::Nat (HTTP status) with its comparison against u8; ic_management_canister_types::{HttpHeader,
